@@ -373,7 +373,16 @@ def one_case(case, res, sigs, lines, metas):
     got = {w.qualified_name for w in data.disqualification}
     warn = {w.qualified_name for w in data.warnings}
     res["hist"][f"{case['kind']}:{case['style']}"] = res["hist"].get(f"{case['kind']}:{case['style']}", 0) + 1
-    g2 = {x for x in got if x.startswith(P) and x[len(P):] in DQ_KNOWN}
+    # every reported disqualification counts: a name outside the published criteria (an off-cycle read, an extreme value, ... reported
+    # as a disqualification instead of a warning) is "reported although no criterion is violated"
+    g2 = set(got)
+    outside = sorted(x for x in got if not (x.startswith(P) and x[len(P):] in DQ_KNOWN))
+    if outside:
+        # (also for billing frames, whose verdict is otherwise compared through the captured frame only)
+        res["oracle_failures"].append(dict(case=small, clause="disqualification_outside_the_published_criteria",
+                                           detail=dict(reported=outside, note="off-cycle reads, extreme values, UTC indexes and unverifiable "
+                                                       "temperature coverage are warnings; they never change the verdict")))
+        g2 -= set(outside)
     if compare_names is not None:
         g2, e2 = g2 & compare_names, exp & compare_names
     else:
@@ -411,6 +420,10 @@ def run(ctx):
                 one_case(dict(kind="daily", tz=tzname, start=pd.Timestamp("2020-12-01", tz=tzname).isoformat(), n=335, baseline=True,
                               electric=True, style="month_line_spring_span", miss_obs=miss_obs, miss_temp_days=[71, 72, 73], partial={},
                               negatives=[], extreme=False, entry=entry), res, sigs, lines, metas)
+    # directed, every run: a billing calendar with one off-cycle period (12 days) and one with a 40-day period
+    for off in (12, 40):
+        one_case(dict(kind="billing", style="perfect", tz="America/Chicago", start=pd.Timestamp("2021-01-05", tz="America/Chicago").isoformat(),
+                      lens=[30, 31, 29, off, 30, 31, 30, 31, 30, 31, 30, 31], baseline=True, electric=True, k=20), res, sigs, lines, metas)
     # directed, every run: the irradiance criterion on both data classes, just on and just under the 90 % line
     for baseline in (True, False):
         for ghi_k in (72, 73):
